@@ -216,6 +216,39 @@ Theorem C17_secure_keys_never_in_clear : forall sc tr,
 Proof. exact keys_never_in_clear. Qed.
 Print Assumptions C17_secure_keys_never_in_clear.
 
+(* ---------------- the remote-SSRC latch in front of decryption ---------------- *)
+
+(* whatever does not decode (altered / forged) is never delivered *)
+Theorem C17_secure_latch_never_delivers_undecodable : forall secure l ssrc,
+  snd (filter_step secure l ssrc false) <> EDelivered.
+Proof. exact latch_never_delivers_undecodable. Qed.
+Print Assumptions C17_secure_latch_never_delivers_undecodable.
+
+(* finding ssrc-latch-unauthenticated: the latch is written before authentication, so ONE undecodable
+   packet with another SSRC arriving first makes the receiver refuse all genuine packets ... *)
+Theorem C17_secure_latch_poisoned_refuted :
+  filter_run true (mkLatch false 0) [(2, false); (1, true); (1, true); (1, true)]
+  = [EDecodeError; EWrongSSRC; EWrongSSRC; EWrongSSRC].
+Proof. exact latch_poisoned_refuted. Qed.
+Print Assumptions C17_secure_latch_poisoned_refuted.
+
+(* ... for the rest of the session *)
+Theorem C17_secure_latch_poison_permanent : forall v g pkts,
+  v <> g -> Forall (genuine g) pkts ->
+  filter_run true (mkLatch true v) pkts = map (fun _ => EWrongSSRC) pkts.
+Proof. exact latch_poison_permanent. Qed.
+Print Assumptions C17_secure_latch_poison_permanent.
+
+(* strongest true statement for the code as it is: when the first packet reaching the format carries
+   the sender's SSRC, every genuine packet is delivered and every undecodable one rejected, in any
+   interleaving.  (ProofsFixed.v proves the unconditional statement for the repaired latch.) *)
+Theorem C17_secure_latch_partial : forall secure g ok0 pkts,
+  Forall (fun p => snd p = true -> fst p = g) pkts ->
+  filter_run secure (mkLatch false 0) ((g, ok0) :: pkts)
+  = (if ok0 then EDelivered else EDecodeError) :: map (latch_expected secure g) pkts.
+Proof. exact latch_first_genuine. Qed.
+Print Assumptions C17_secure_latch_partial.
+
 (* ---------------- non-vacuity ---------------- *)
 
 (* a context with an MKI, three SSRCs (one duplicated) and non-zero counters goes through *)
